@@ -47,7 +47,7 @@ SPEC = dict(
     bound=dict(
         quick="honest {0,1,2} matrices of shapes {3,4}x{1,2} and 5x1 (all), D(seed) for m in 3..5, n in 1..3; all "
         "b <= (m-1)//2, all (f<=m-3, k<=m); every subset of <= b / <= f rows; every assignment of the 12 (6 for n=1) "
-        "corruption rows; float64 and float32; too-few-rows for b<=3, f<=3, k<=f+5",
+        "corruption rows; float64 and float32; too-few-rows for b<=3, f<=3, k<=f+5; tall matrices (26 and 30 rows, offsets up to 1e4); buffer re-use histories",
         thorough="as quick plus all 59 049 honest {0,1,2} matrices of shape 5x2 (float64; float32 for |S|<=1)",
     ),
     assumptions=[
